@@ -560,7 +560,7 @@ func labelsFor(id ident, c gwConfig) []string {
 
 func body(r *eng.Run) {
 	th := r.Thorough()
-	r.Rule("(1) every valid DNS name over {a,1,-,.} up to length 7 (thorough 9) and length-boundary names: Uninline(Inline(d)) == d, label <= 63 or error exactly when longer; (2) every flow = configuration (subdomain gw, +inlining, +port, wildcard host, localhost, path gw, NoDNSLink) x mode (path request to the gateway host, subdomain host, DNSLink host) x identifier (CIDv0, CIDv1 over 6 multihashes x 4 codecs x 3-5 bases, 4 peer-key shapes in legacy and CID forms incl. wrong multicodec, DNS names) x remainder {'', '/', '/a/b', '/a b', '/?' (encoded %3F)} x query {'', 'x=1&y=%2F'} x X-Forwarded-Proto {-, https} (+ fragment, X-Forwarded-Host, alias-record variants on sub-grids); redirects are followed like a client would (max 6 hops) until the inner handler sees a content path; non-trivial = every flow")
+	r.Rule("(1) every valid DNS name over {a,1,-,.} up to length 7 (thorough 9) and length-boundary names: Uninline(Inline(d)) == d, label <= 63 or error exactly when longer; (2) every flow = configuration (subdomain gw, +inlining, +port, wildcard host, localhost, path gw, NoDNSLink) x mode (path request to the gateway host, subdomain host, DNSLink host with and without port, non-gateway path on the gateway's own DNSLinked host) x identifier (CIDv0, CIDv1 over 6 multihashes x 4 codecs x 3-5 bases, 4 peer-key shapes in legacy and CID forms incl. wrong multicodec, DNS names) x remainder {'', '/', '/a/b', '/a b', '/?' (encoded %3F)} x query {'', 'x=1&y=%2F&a=b+c'} x X-Forwarded-Proto {-, https} (+ fragment, X-Forwarded-Host, alias-record variants on sub-grids); redirects are followed like a client would (max 6 hops) until the inner handler sees a content path; non-trivial = every flow")
 	r.Assume("go-cid / go-multibase / peer.Decode decode identifiers correctly (used by the oracle to compare multihashes)")
 	r.Assume("a client re-issues the request at the Location URL unchanged; behind a proxy (X-Forwarded-Host variant) the public host is again delivered in X-Forwarded-Host")
 
